@@ -43,6 +43,11 @@ def gzRun (limit : Nat) : List (Str × List Ans) → GSt → GSt
 
 def total (l : List Str) : Nat := (l.map List.length).sum
 
+/-- composition with the connection machine: an `HTTPInputError` raised by the wrapper inside `data_received` leaves
+    `_read_fixed_body` / `_read_chunked_body` and is caught by the same `except HTTPInputError` arm of `_read_message` as
+    the connection's own framing errors — `reject400 · true` (400, close, `on_connection_close`) -/
+def gzRefusal (s : St) (g : GSt) : St := if g.rejected then reject400 s true else s
+
 /-! ## the size options as the application gives them
 
 `HTTPServer(max_header_size=…, max_body_size=…)` / `IOStream(max_buffer_size=…)`: every option may be absent (`None`), and
